@@ -19,7 +19,11 @@
 //! only works if a close event never fires more than once.
 
 use std::os::unix::io::{AsFd, BorrowedFd, OwnedFd};
+#[cfg(not(calloop_verif_shuttle))]
 use std::sync::Arc;
+// verification only: reference counts with trace points
+#[cfg(calloop_verif_shuttle)]
+use crate::verif::Arc;
 
 use rustix::event::{eventfd, EventfdFlags};
 use rustix::io::{read, write, Errno};
